@@ -327,7 +327,7 @@ func (e *Engine) evalIdent(env *Env, name string) Value {
 	switch name {
 	case "snap", "ismap", "anyref":
 		return FuncRefV{Name: name}
-	case "isint64", "isfloat64", "isstring", "isbool", "anyint", "anystr", "anybool", "isjsonnumber", "anyfloat", "float64", "feq", "uf":
+	case "isint64", "isfloat64", "isstring", "isbool", "anyint", "anystr", "anybool", "isjsonnumber", "anyfloat", "float64", "feq", "uf", "anyslice", "sametype":
 		return FuncRefV{Name: name}
 	case "len", "cap", "fresh", "as", "typeis", "isnil", "arrid", "abs", "min", "max", "allocated", "sameslice", "unchanged", "str", "int64", "uint64", "int", "byte", "implies", "ident":
 		return FuncRefV{Name: name}
@@ -830,6 +830,17 @@ func (e *Engine) evalCall(env *Env, n *cexpr.Node) Value {
 		return IntV{smt.AppS("val_i", smt.Int, e.eval(env, args[0]).(AnyV).T)}
 	case "anybool":
 		return BoolV{smt.AppS("val_b", smt.Bool, e.eval(env, args[0]).(AnyV).T)}
+	case "anyslice":
+		// anyslice(x, s): the slice held by interface value x, viewed with the slice type of s
+		like := e.eval(env, args[1]).(SliceV)
+		a := e.eval(env, args[0]).(AnyV).T
+		return SliceV{Arr: smt.AppS("arr_l", smt.Int, a), Off: smt.AppS("off_l", smt.Int, a), Len: smt.AppS("len_l", smt.Int, a), Cap: smt.AppS("cap_l", smt.Int, a), Elem: like.Elem}
+	case "sametype":
+		// sametype(x, y): two interface values of the same dynamic type (same representation and type id)
+		a, b := e.eval(env, args[0]).(AnyV).T, e.eval(env, args[1]).(AnyV).T
+		return BoolV{smt.And(smt.Eq(smt.App("any_tid", smt.Int, a), smt.App("any_tid", smt.Int, b)),
+			smt.Eq(smt.AppS("is-any_slice", smt.Bool, a), smt.AppS("is-any_slice", smt.Bool, b)),
+			smt.Eq(smt.AppS("is-any_ref", smt.Bool, a), smt.AppS("is-any_ref", smt.Bool, b)))}
 	case "anyfloat":
 		return FloatV{smt.AppS("val_f", smt.F64, e.eval(env, args[0]).(AnyV).T)}
 	case "float64":
